@@ -185,9 +185,10 @@ def run_check(prop, tier, base, jobs, budget, t0):
     mask = driver.mask_for(prop)
     unconfirmed = []
     agg = aggregate(spec, results)
+    run_errors = []
     for r in results:
         if r.get("harness_error"):
-            harness_errors.append(f"run {r.get('index')}: {r['harness_error']}")
+            run_errors.append(f"run {r.get('index')}: {r['harness_error']}")
         v = r.get("violation")
         if v:
             path = write_replay(prop, r["seed"], r["index"], v, mask)
@@ -216,15 +217,17 @@ def run_check(prop, tier, base, jobs, budget, t0):
             print("  " + json.dumps({"at": d.get("at"), "op": d.get("op"), "handle": d.get("handle"), "sut": d.get("sut"), "ref": d.get("ref")})[:1500])
             violations.append({"replay": path, "class": v["class"]})
     wall = time.time() - t0
+    if violations and not harness_errors:
+        # a confirmed, replayable violation stands; trouble in *other* runs of the same batch (a broken SUT may hang
+        # or fail to replay) is reported but does not turn the verdict into a harness fault
+        for u in (unconfirmed + run_errors)[:4]:
+            print("NOTE (other runs of this batch; the confirmed violation above stands): " + u[:300])
+    else:
+        # no confirmed violation: an unreproducible divergence or a run that could not be executed is never a pass
+        harness_errors += unconfirmed + run_errors
     write_evidence(prop, tier, base, agg, wall, violations, harness_errors, det_msg, kf_repro, jobs, mask)
     print(f"runs={agg['runs']} ops={agg['ops']} distinct_nontrivial={agg['distinct_nontrivial']} "
           f"runs/h={int(agg['runs'] / max(wall, 1e-9) * 3600)} faults={json.dumps(agg['fault_counts'], sort_keys=True)}")
-    if unconfirmed and not violations:
-        # a divergence was observed in the batch but no replay reproduces it: never a pass
-        harness_errors += unconfirmed
-    elif unconfirmed:
-        for u in unconfirmed[:3]:
-            print("NOTE (other divergent runs whose replay did not reproduce; the confirmed violation above stands): " + u[:300])
     if harness_errors:
         for h in harness_errors[:5]:
             print("HARNESS-ERROR " + h[:1500])
